@@ -70,6 +70,25 @@ CHECKS = {
                 note=TRUST_M, ref='DESIGN.md 4 C19'),
 }
 
+
+ADDED = {
+    'C03': ' Added: every candidate within the safety radius - also images of the cell\'s own generator - is clipped (builder loop), the periodic box contains the images (cuboid), and every search result is handed to the builder unchanged (neighbour pipeline).',
+    'C04': ' Counterexamples on the rule are completed to public-API scenarios (generators on walls, masks) and confirmed on the real tessellation.',
+    'C05': ' Added: the exact tie-breaker obligations of C10.a (no overflow, determinant, sign) are regenerated here, with a ground corner-instance search when an overflow assertion is undecided; a second known finding (regular ring of co-circular generators) is re-observed natively.',
+    'C06': ' Added: several candidates in sequence (loop ends early only beyond the current safety radius), neighbour pipeline (no search result dropped), face rule for shifted planes (each cell owns its periodic faces, whatever the mask). Counterexamples are confirmed against the 3^d-replicated non-periodic tessellation through the public API.',
+    'C07': ' Added: the symmetric face-integral rule, and state transitions (clone / with_faces / discard_faces / VoronoiIntegrator::with_faces keep the mask, the cells and every other field).',
+    'C08': ' Added: the builder loop treats candidates alike in 1D/2D/3D (several candidates; ends early only beyond the current safety radius); neighbour pipeline.',
+    'C12': ' Added: offset / count are stored and returned exactly for every value below 2^48 (narrowing casts modelled exactly); faces carry symbolic area/centroid/normal (the index structure cannot depend on geometry).',
+    'C13': ' Added: VoronoiFaceIntegral and AreaCentroidIntegral are the same function of the accumulator for EVERY accumulated area (finalize and collect twins); compute_cell_integral collects every tetrahedron in every dimensionality; VoronoiIntegrator::with_faces keeps the integrator.',
+    'C14': ' Added: compute_cell_integral hands every tetrahedron of the decomposition to the user integral, once, in order, in 1D/2D/3D; native replays at length scales 1e-9 .. 1e5.',
+    'C15': ' Added: square pyramid with a 4-valent apex (two coincident vertices), 260-gon prism (faces with more than 255 vertices), clone keeps the face data, native polytope checks on fcc / cubic lattices and on cells inside a ring of 300 generators.',
+    'C16': ' Added: several candidates in sequence; the radius survives clone / with_faces / discard_faces / VoronoiIntegrator::with_faces.',
+    'C17': ' Added: the loop of Iterator::next on a harness heap (every popped leaf returned once with its own distance and shift, also a second image of the same generator; inner nodes only extend the heap), the pipeline wrapping_nn_iter / nn_iter (nothing dropped or reordered); when a part cannot be encoded the statement of C17 is evaluated on real visit sequences.',
+    'C18': ' Added (concrete execution through the MIR): compute_boundary on fans of 20/40 (96) removed vertices under seeded storage orders; a 1500-call (6000) init/try_extend history on one SimpleCycle against an independent successor-map model. Quick tier: plane indices 0..5 and 14..19; 62..67 in the thorough tier.',
+    'C19': ' Added: Sphere::contains is a relative test at every scale; extend paths are classified by what they return; every path of from_three_points is checked.',
+    'C20': ' Added: Sphere::contains (relative tolerance at every scale).',
+}
+
 NA = {
     'C09': 'rayon work-stealing schedules: Kani/CBMC do not model threads and no encoding of rayon is within reach; the sequential build is what the harnesses analyse (DESIGN.md 4)',
 }
@@ -89,7 +108,7 @@ for p in props:
             'evidence_file': 'evidence/%s.json' % pid,
             'replay_cmd_template': './check %s --replay {path}' % pid,
             'engine': 'mirsym+kani',
-            'level_claimed': {'category': c['cat'], 'text': c['text'], 'design_ref': c['ref']},
+            'level_claimed': {'category': c['cat'], 'text': c['text'] + ADDED.get(pid, ''), 'design_ref': c['ref'] + (' , 7.2' if pid in ADDED else '')},
             'level_note': c['note'],
             'technique': c['tech'],
         })
